@@ -61,6 +61,16 @@ DET = {
  "C19-m4": ("C19", "./check C19 --tier quick -> exit 1 (0 ** (p-1) = 1)", "missed at first: Pow was only judged for exponents 0, 1, 2; now every Pow evaluation carries a square-and-multiply certificate that TLC verifies product by product (exponents incl. (p-1)/2, p-2, p-1, 2^64)"),
  "C20-m3": ("C20", "./check C20 --tier quick -> exit 1 (second graph in the same buffer evaluated as the first)", "missed at first; the stored graph is now handed over in one long-lived buffer overwritten in place, each graph followed by a twin with one operator exchanged; (the first attempt ended in a tool error: an error string and a vector were compared in the judge - errors are now encoded in the vectors' sort)"),
  "C20-m4": ("C20", "./check C20 --tier quick -> exit 1 (stored graph with a long input map cannot be read back through 1-byte reads)", "missed at first; graphs with 30-50 named inputs, read back through readers delivering 1, 2 or 13 bytes per call"),
+ "C06-m5": ("C06", "./check C06 --tier quick -> exit 1 (pm: range of stored values does not raise the mark)", ""),
+ "C06-m6": ("C06", "./check C06 --tier quick -> exit 1 (optimal: stale inner nodes after a partly unchanged batch)", ""),
+ "C07-m5": ("C07", "./check C07 --tier quick -> exit 1 (full: stale nodes after an unsorted removal list)", ""),
+ "C07-m6": ("C07", "./check C07 --tier quick -> exit 1 (optimal: re-hash early exit)", ""),
+ "C08-m5": ("C08", "./check C08 --tier quick -> exit 1 (optimal: unsorted removal list)", ""),
+ "C08-m6": ("C08", "./check C08 --tier quick -> exit 1 (full: batch of stored values does not raise the mark)", ""),
+ "C15-m5": ("C15", "./check C15 --tier quick -> exit 1 (pm: marks left by a rejected range write)", ""),
+ "C15-m6": ("C15", "./check C15 --tier quick -> exit 1 (optimal: removal behind the written range skipped)", ""),
+ "C16-m5": ("C16", "./check C16 --tier quick -> exit 1 (all-zero metadata gone after reopen)", "missed at first; metadata values now include all-zero ones"),
+ "C16-m6": ("C16", "./check C16 --tier quick -> exit 1 (metadata rejected by a failing write is served until the reopen)", "missed at first; every call kind is hit by a fault and every other history ends without a retry"),
  "C09-m1": ("C09", "./check C09 --tier quick -> exit 1 (Poseidon of 8 inputs: round certificate rejected)", ""),
  "C09-m2": ("C09", "./check C09 --tier quick -> exit 1 (byte-level / FFI hash of a 4097-byte signal differs from Keccak.tla)", "missed at first; hash-to-field lengths 4095, 4096, 4097 (8192, 10000 thorough) added"),
  "C11-m1": ("C11", "./check C11 --tier quick -> exit 1 (metadata after set_tree differs between FFI and API)", "missed at first; life-cycle scenario and set_tree inside random histories added"),
